@@ -161,8 +161,14 @@ def csneg_cases(tier):
 
 # --------------------------------------------------------------------------- unbroadcast
 
+def shapes0(maxdim, maxlen):
+    for nd in range(1, maxdim + 1):
+        for shp in itertools.product(range(0, maxlen + 1), repeat=nd):
+            yield list(shp)
+
+
 def ub_blocks(tier):
-    for shp in shapes(3, 3):
+    for shp in shapes0(3, 3):
         nd = len(shp)
         for bmask in itertools.product([0, 1], repeat=nd):
             for perm in itertools.permutations(range(nd)):
@@ -174,13 +180,13 @@ def _make_strided(shape, bcast, perm, steps, offset=0):
     """An array of `shape` whose axes flagged in bcast are stride-0 broadcast axes, built
     from a base that is transposed and sliced with steps (so non-broadcast strides are irregular)."""
     nd = len(shape)
-    base_shape = [1 if bcast[i] else shape[i] * steps[i] for i in range(nd)]
+    base_shape = [1 if bcast[i] else max(shape[i], 1) * steps[i] for i in range(nd)]
     # allocate in permuted memory order
     mem_shape = [base_shape[p] for p in perm]
     base = (np.arange(int(np.prod(mem_shape)), dtype=float) + offset).reshape(mem_shape)
     inv = np.argsort(perm)
     base = base.transpose(inv)  # axes back in logical order, memory order permuted
-    sl = tuple(slice(None) if bcast[i] else slice(None, None, steps[i]) for i in range(nd))
+    sl = tuple(slice(None) if bcast[i] else slice(None, shape[i] * steps[i], steps[i]) for i in range(nd))
     small = base[sl]
     return np.broadcast_to(small, shape), small
 
@@ -191,6 +197,17 @@ def fn_ub(spec, rec):
     arr, small = _make_strided(shape, bcast, spec["perm"], spec["steps"])
     res = unbroadcast(arr)
     exp_shape = tuple(1 if bcast[i] else shape[i] for i in range(len(shape)))
+    if 0 in shape:
+        # an empty array has nothing to remove: anything that broadcasts back to it and is itself empty is fine
+        if res.size != 0:
+            raise Mismatch("unbroadcast/empty-array-gained-elements", {"shape": shape, "got": list(res.shape)})
+        if np.broadcast_to(res, shape).shape != tuple(shape):
+            raise Mismatch("unbroadcast/empty-array-shape", None)
+        r1, r2 = broadcast_arrays_minimal(arr, arr)
+        if r1.size != 0:
+            raise Mismatch("broadcast_arrays_minimal/empty-array-gained-elements", None)
+        rec.nt(any(bcast))
+        return
     if tuple(res.shape) != exp_shape:
         raise Mismatch("unbroadcast/not-minimal", {"got": list(res.shape), "expected": list(exp_shape)})
     if not np.array_equal(np.broadcast_to(res, shape), arr):
